@@ -132,6 +132,10 @@ pub fn gen_c01(rng: &mut Rng, _k: usize, _tier: &str) -> J {
                          "SELECT a.city AS k0, sum(a.income) AS a0, count(b.age) AS a1 FROM users AS a JOIN users AS b ON a.city = b.city GROUP BY a.city",
                          "SELECT sum(o.amount) AS a0 FROM orders AS o JOIN users AS u ON o.qty = u.age",
                          "SELECT sum(o.amount) AS a0, count(p.qty) AS a1 FROM orders AS o JOIN orders AS p ON o.qty = p.qty",
+                         // outer joins of two protected tables on a condition that leaves right-hand rows unmatched: their privacy unit is NULL
+                         "SELECT sum(o.amount) AS a0 FROM users AS u RIGHT JOIN orders AS o ON u.age = o.qty",
+                         "SELECT sum(o.amount) AS a0, count(o.qty) AS a1 FROM users AS u FULL JOIN orders AS o ON u.id = o.qty",
+                         "SELECT sum(o.bal) AS a0 FROM users AS u RIGHT JOIN orders AS o ON u.id = o.user_id AND u.age > 50",
                          "SELECT sum(price) AS a0, count(price) AS a1 FROM items",
                          "SELECT sum(i.price) AS a0 FROM items AS i JOIN orders AS o ON i.order_id = o.id"]).to_string();
     }
